@@ -77,7 +77,11 @@ def multitarget_rule(build_inputs, buildfile, targets, deps=None,
         # that depend on an output it looked at earlier aren't rebuilt.
         buildfile.rule(target=targets, deps=[primary],
                        recipe=[Silent([':'])])
-        recipe = listify(recipe) + [Silent([ 'touch', qvar('@') ])]
+        # The stamp gets the time from *before* the recipe ran, so that it's
+        # older than the outputs and the rule above is up to date afterwards.
+        stamp_tmp = qvar('@') + '.tmp'
+        recipe = ( [Silent([ 'touch', stamp_tmp ])] + listify(recipe) +
+                   [Silent([ 'mv', stamp_tmp, qvar('@') ])] )
         if clean_stamp:
             build_inputs.add_target(file_types.File(primary))
     else:
